@@ -1219,7 +1219,11 @@ func reflectSetChild(data any, key string, v any) bool {
 				return true
 			}
 		case reflect.Map:
-			rk := reflect.ValueOf(key)
+			if rt.Key().Kind() != reflect.String {
+				return false
+			}
+			// The key type might be a defined string type.
+			rk := reflect.ValueOf(key).Convert(rt.Key())
 			vv := reflect.ValueOf(v)
 			if !vv.IsValid() && v == nil {
 				vv = reflect.Zero(rt.Elem())
